@@ -30,7 +30,7 @@ func init() {
 		Prop:  "C20",
 		Level: "exploration",
 		Rule: "E1: every script of <=5 (thorough: <=6) events that makes sense over {connect, connect with failing Assigner, gated call, instant call, client close, gate release, " +
-			"context cancel, accepter closing error, accepter other error} with <=3 connections, followed by an orderly teardown (release, close, cancel, accepter closes), " +
+			"context cancel, accepter closing error, accepter other error (per script one of: plain error, timeout net.Error, *net.OpError wrapping it, context.DeadlineExceeded, io.ErrUnexpectedEOF)} with <=3 connections, followed by an orderly teardown (release, close, cancel, accepter closes), " +
 			"x variants (Accept ignores ctx / returns a closing error / returns ctx.Err()) x (channel Close unblocks Recv or not) x (gated handlers obey ctx or not); " +
 			"the bubble is settled and the oracle evaluated after every event. E2: the same scripts (<=3 events quick, <=4 thorough) re-run once per hook visit " +
 			"(loop.* and srv.* sites) with that visit parked until everything else is blocked (pairs of visits in thorough on scripts <=3). " +
